@@ -4,7 +4,7 @@ Model-side driver of the `trace` line protocol (C14, C16).  Reads cases on stdin
   graph <caseid> [key=value …]                                   steer=<k>:<s|S|f|F>,… = steering policy of the gate controller per try block
                                                                  (s/S: selected handler held until finally started/closed, f/F: finally held)
   task <id> <role> d=<depth> x=<ctx> w=<ids|-> b=<cmds|->       role: top | child:<p>:<i> | tbody:<y> | hsucc:<y> | hfail:<y> | hfin:<y>
-                                                                 cmds: p | g | f | s<c> | y<k>   (g = gated probe = p for the monitor)
+                                                                 cmds: p | g | f | x | q | t | s<c> | y<k>   (g = gated probe = p, x / q = f for the monitor, t = stop)
   try <k> owner=<p>:<i> body=<b> succ=<id|-> fail=<id|-> fin=<id|->
   top <ids|->
   <seq> sub|acc|rej <t> | fetch <t> <i> | cmd <t> <i> | ret <t> <i> ok|err | done <t> ok|fail | mwait ok|err|hang
@@ -42,7 +42,8 @@ def parseRole (s : String) : Option Role :=
 
 def parseCmd (s : String) : Option Cmd :=
   if s = "p" || s = "g" then some .probe
-  else if s = "f" then some .fail
+  else if s = "f" || s = "x" || s = "q" then some .fail      -- x: unknown command name, q: truncated last command
+  else if s = "t" then some .stop
   else if s.startsWith "s" then (s.drop 1).toString.toNat?.map .spawn
   else if s.startsWith "y" then (s.drop 1).toString.toNat?.map .try_
   else none
@@ -164,7 +165,8 @@ def why (g : Graph) (pre : List Ev) : Ev → String
     else if ¬ (∀ i ∈ List.range (g.body t).length, Ev.cmd t i ∈ pre → cmdClosed g pre t i) then whyClosed g pre t
     else if ok then
       (if ¬ waitsOk g pre t then "closed-ok-despite-failed-or-unfinished-prerequisite"
-       else "closed-ok-with-incomplete-or-failed-body")
+       else if (List.range (g.body t).length).any (fun i => decide (Ev.ret t i false ∈ pre)) then "closed-ok-although-a-command-failed"
+       else "closed-ok-with-incomplete-body")
     else "failed-without-cause-in-its-context"
   | .mwait ok =>
     if ¬ (∀ t ∈ List.range g.n, acceptedEv g pre t → hasDone pre t) then "manager-wait-returned-before-all-finished"
